@@ -2071,7 +2071,7 @@ impl<'a> CompilerState<'a> {
                         if f.code.is_some() {
                             return Err(self.syntax_error(
                                 &format!("Function {} already defined", name),
-                                start,
+                                superstart.unwrap(),
                             ));
                         }
                     }
